@@ -95,7 +95,12 @@ def add_gc(rng, sc, n=None):
     cands = [lo + 4, lo + 20, (lo + hi) // 2 - ((lo + hi) // 2) % 16 + 4, hi + 4, hi + maxdur // 2 - (maxdur // 2) % 16 + 4, lo + sc.ne // 2 - (sc.ne // 2) % 16 + 4]
     rng.shuffle(cands)
     for t in cands[:n or rng.range(1, 3)]:
-        sc.add(cc.free_instant(used, max(0, t)), "C", 0)
+        # a third of these instants: instead of a collection, a call the cache REJECTS (a key of an unhashable type: the call
+        # panics on the caller's goroutine, which recovers) -- every other call of the script must still return
+        if rng.chance(1, 3):
+            sc.add(cc.free_instant(used, max(0, t)), "X", rng.below(3))
+        else:
+            sc.add(cc.free_instant(used, max(0, t)), "C", 0)
     return sc
 
 
